@@ -153,6 +153,14 @@ variable (o : Oracles)
 end
 
 
+@[simp] theorem alias_named_beq (a b : String) : (Alias.named a == Alias.named b) = (a == b) := by
+  by_cases h : a = b
+  · subst h; simp
+  · have h' : Alias.named a ≠ Alias.named b := fun e => h (Alias.named.inj e)
+    rw [beq_eq_false_iff_ne.mpr h, beq_eq_false_iff_ne.mpr h']
+
+theorem filter_true {α} (l : List α) : l.filter (fun _ => true) = l := List.filter_eq_self.mpr (by simp)
+
 /-! ### select bodies of the shapes the planner emits -/
 theorem evalBody_plain (o : Oracles) (db : Db) (env : Env) (ws : List (Alias × Sel)) (dist : Bool) (cols : List Expr)
     (f : Expr) (pre wher hv : Option Expr) :
